@@ -53,14 +53,14 @@ def evalRaw (st : DState) (name : String) (t : List String) : Eval :=
   | ["complement_of", other] =>
     match raws[other]? with
     | some o => mk ⟨o.m.complement, o.s.map not⟩
-    | none => { st := st, model := "driver:no-object" }
+    | none => { st := st, model := "panic:no-object" }
   | ["eq", other] =>
     match raws[name]?, raws[other]? with
     | some a, some b => { st := st.note "raw.eq", model := toString (decide (a.m = b.m)), spec := some (toString (decide (a.s = b.s))) }
-    | _, _ => { st := st, model := "driver:no-object" }
+    | _, _ => { st := st, model := "panic:no-object" }
   | _ =>
     match raws[name]? with
-    | none => { st := st, model := "driver:no-object" }
+    | none => { st := st, model := "panic:no-object" }
     | some o =>
       let same (model : String) (spec : Option String) (r : String := "") : Eval :=
         { st := if r = "" then st else st.note r, model := model, spec := spec }
@@ -171,10 +171,10 @@ def evalIv (st : DState) (name : String) (t : List String) : Eval :=
   | ["eq", other] =>
     match ivs[name]?, ivs[other]? with
     | some a, some b => { st := st.note "iv.eq", model := toString (decide (a.m = b.m)), spec := some (toString (decide (a.w = b.w ∧ a.s = b.s))) }
-    | _, _ => { st := st, model := "driver:no-object" }
+    | _, _ => { st := st, model := "panic:no-object" }
   | _ =>
     match ivs[name]? with
-    | none => { st := st, model := "driver:no-object" }
+    | none => { st := st, model := "panic:no-object" }
     | some o =>
       let same (model : String) (spec : Option String) (r : String := "") : Eval :=
         { st := if r = "" then st else st.note r, model := model, spec := spec }
